@@ -2,7 +2,7 @@
    Only statements, each closed by [exact] of a lemma proved elsewhere, followed by
    Print Assumptions; plus Examples showing the hypotheses are satisfiable. *)
 From Coq Require Import ZArith List Bool.
-From BP Require Import Bits Schema Spec PyRt CMem CRt CCopyProofs CEncProofs CTop.
+From BP Require Import Bits Schema Spec PyRt CMem CRt CCopyProofs CBaseProofs CEncProofs CDecProofs CBatchProofs CTop.
 Import ListNotations.
 Open Scope Z_scope.
 
@@ -55,6 +55,43 @@ Theorem C03_interop_encode : forall t v,
 Proof. exact c_encode_eq_py_encode. Qed.
 Print Assumptions C03_interop_encode.
 
+(* Decode<Msg>, given the specified bytes and a zero-initialised struct, reconstructs exactly
+   the stored value: every integer two's complement in its storage width, i.e. signed
+   widths sign-extended *)
+Theorem C03_decode : forall t v,
+  c_schema t -> has_ty (norm t) v = true ->
+  c_decode_ty LE LE t (wire t v) = COk (store LE (norm t) v).
+Proof. exact c_decode_le. Qed.
+Print Assumptions C03_decode.
+
+(* a C peer decodes what a Python peer encoded (with C01) *)
+Theorem C03_interop_decode : forall t v,
+  c_schema t -> has_ty (norm t) v = true ->
+  exists bs, py_encode t v = Ok bs /\ c_decode_ty LE LE t bs = COk (store LE (norm t) v).
+Proof. exact c_decode_of_py_encode. Qed.
+Print Assumptions C03_interop_decode.
+
+(* the contiguous batch copy for arrays of 8/16/32/64-bit integers equals the per-element
+   loop, in both directions *)
+Theorem C03_batch_eq_loop_encode : forall ext cap e o x,
+  wf (TArr ext cap e) = true -> cwf (TArr ext cap e) = true ->
+  batch_pred LE (nbits e) (d_flag (render e)) (d_to_flag (render e)) = true ->
+  shape_ok (TArr ext cap e) o -> cenc_pre x (nbits (TArr ext cap e)) ->
+  endecode_array LE LE (call_processor LE LE true) true ext (Z.of_nat cap) (render e) x o
+  = endecode_array_loop_only LE LE (call_processor LE LE true) true ext (Z.of_nat cap) (render e) x o.
+Proof. exact batch_eq_loop_encode. Qed.
+Print Assumptions C03_batch_eq_loop_encode.
+
+Theorem C03_batch_eq_loop_decode : forall ext cap e v x,
+  wf (TArr ext cap e) = true -> cwf (TArr ext cap e) = true ->
+  batch_pred LE (nbits e) (d_flag (render e)) (d_to_flag (render e)) = true ->
+  has_ty (TArr ext cap e) v = true -> dec_pre x (nbits (TArr ext cap e)) ->
+  seg (xs x) (xi x) (nbits (TArr ext cap e)) = Z_of_bits (enc_bits (TArr ext cap e) v) ->
+  endecode_array LE LE (call_processor LE LE false) false ext (Z.of_nat cap) (render e) x (zero_obj (TArr ext cap e))
+  = endecode_array_loop_only LE LE (call_processor LE LE false) false ext (Z.of_nat cap) (render e) x (zero_obj (TArr ext cap e)).
+Proof. exact batch_eq_loop_decode. Qed.
+Print Assumptions C03_batch_eq_loop_decode.
+
 Definition ex_t : ty :=
   TMsg true [ (3, TAlias (TArr true 3 (TUint 3))); (1, TEnum 3 [0; 1; 5]); (2, TAlias (TInt 13));
               (5, TMsg false [(2, TUint 5); (1, TBool)]); (7, TArr false 2 TByte); (9, TInt 32);
@@ -67,5 +104,7 @@ Definition ex_v : val :=
        (11, VL [VZ (-1); VZ 2; VZ (-32768)]); (12, VL [VL [VZ (-64); VZ 63]; VL [VZ (-1); VZ 5]]) ].
 Example C03_encode_nonvacuous :
   c_schema ex_t /\ has_ty (norm ex_t) ex_v = true /\
-  c_encode_ty LE LE ex_t (store LE (norm ex_t) ex_v) = COk (wire ex_t ex_v) /\ length (wire ex_t ex_v) = 27%nat.
+  c_encode_ty LE LE ex_t (store LE (norm ex_t) ex_v) = COk (wire ex_t ex_v) /\ length (wire ex_t ex_v) = 27%nat /\
+  c_decode_ty LE LE ex_t (wire ex_t ex_v) = COk (store LE (norm ex_t) ex_v) /\
+  batch_pred LE (nbits (TInt 16)) (d_flag (render (TInt 16))) (d_to_flag (render (TInt 16))) = true.
 Proof. vm_compute. repeat split; reflexivity. Qed.
